@@ -12,22 +12,25 @@ Definition str := list byte.
 (* ---- values: the fields of value.Integer / Float / String / Boolean / RTime that the
    modelled code reads or writes.  INTEGER and RTIME (nanoseconds) are signed 64-bit
    numbers, FLOAT is its IEEE-754 bit pattern (0 <= bits < 2^64). *)
-Inductive ty := TInt | TFloat | TStr | TBool | TRTime.
+(* TOpaque k: a type whose values the model only COPIES and never inspects: k = 0 TIME, 1 IP, 2 BACKEND, 3 ACL *)
+Inductive ty := TInt | TFloat | TStr | TBool | TRTime | TOpaque (k : N).
 
 Inductive val :=
 | VInt (z : Z) (lit : bool)
 | VFloat (bits : Z) (lit : bool)
 | VStr (s : str) (notset lit : bool)
 | VBool (b lit : bool)
-| VRTime (ns : Z) (lit : bool).
+| VRTime (ns : Z) (lit : bool)
+| VOpaque (k : N) (payload : str).     (* payload: what the value prints as; carried along, never looked into *)
 
 Definition type_of (v : val) : ty :=
   match v with VInt _ _ => TInt | VFloat _ _ => TFloat | VStr _ _ _ => TStr
-             | VBool _ _ => TBool | VRTime _ _ => TRTime end.
+             | VBool _ _ => TBool | VRTime _ _ => TRTime | VOpaque k _ => TOpaque k end.
 Definition is_lit (v : val) : bool :=
-  match v with VInt _ l | VFloat _ l | VStr _ _ l | VBool _ l | VRTime _ l => l end.
+  match v with VInt _ l | VFloat _ l | VStr _ _ l | VBool _ l | VRTime _ l => l | VOpaque _ _ => false end.
 Definition ty_eqb (a b : ty) : bool :=
   match a, b with TInt, TInt | TFloat, TFloat | TStr, TStr | TBool, TBool | TRTime, TRTime => true
+                | TOpaque j, TOpaque k => N.eqb j k
                 | _, _ => false end.
 
 (* value.Create *)
@@ -35,6 +38,7 @@ Definition default_val (t : ty) : val :=
   match t with
   | TInt => VInt 0 false | TFloat => VFloat 0 false | TStr => VStr [] true false
   | TBool => VBool false false | TRTime => VRTime 0 false
+  | TOpaque k => VOpaque k []
   end.
 
 Definition wrap64 (z : Z) : Z := ((z + 2 ^ 63) mod 2 ^ 64 - 2 ^ 63)%Z.
@@ -122,6 +126,10 @@ Inductive stmt :=
 | SError (allowed : bool) (gs gr : N) (code arg : option expr)
     (* error [code [response]];  allowed: scope RECV/HIT/MISS/PASS/FETCH; gs / gr: the ctx cells
        ctx.ObjectStatus / ctx.ObjectResponse it assigns *)
+| SUnsetWild (o : N) (pre : str)
+    (* unset <obj>.http.<pre>*;  every header of the object whose name starts with pre, ASCII case folded *)
+| SSynthetic (gb : N) (e : expr)
+    (* synthetic e;  gb: the ctx cell of the response body (ctx.Object.Body) it assigns *)
 | SSwitch (c : expr) (cases : list (ctest * list stmt * bool)) (dflt : option nat)
 with ctest :=
 | CDefault
@@ -190,6 +198,21 @@ Fixpoint hget (k : N * N) (l : list ((N * N) * str)) : option str :=
 Fixpoint hdel (k : N * N) (l : list ((N * N) * str)) : list ((N * N) * str) :=
   match l with [] => [] | (k', v) :: r => if key_eqb k k' then hdel k r else (k', v) :: hdel k r end.
 Definition hset (k : N * N) (v : str) (l : list ((N * N) * str)) := (k, v) :: hdel k l.
+
+(* header h of the generated programs is called "h" followed by the letter number h ("ha", "hb", ...) *)
+Definition hdr_name (h : N) : str := [Byte.x68; n2b (97 + h mod 26)%N].
+Definition fold_byte (b : byte) : byte :=
+  let n := b2n b in if ((65 <=? n) && (n <=? 90))%N then n2b (n + 32)%N else b.
+Fixpoint prefix_ci (p s : str) : bool :=
+  match p, s with
+  | [], _ => true
+  | x :: p', y :: s' => if byte_eqb (fold_byte x) (fold_byte y) then prefix_ci p' s' else false
+  | _ :: _, [] => false
+  end.
+(* does `unset <obj o>.http.<pre>*` name header (o', h)? *)
+Definition wild_hit (o : N) (pre : str) (k : N * N) : bool := (fst k =? o)%N && prefix_ci pre (hdr_name (snd k)).
+Definition hdel_wild (o : N) (pre : str) (l : list ((N * N) * str)) : list ((N * N) * str) :=
+  filter (fun e => negb (wild_hit o pre (fst e))) l.
 
 Fixpoint upd {A} (i : nat) (x : A) (l : list A) : list A :=
   match l, i with
